@@ -246,15 +246,57 @@ def v_add(a, b, w):
     b = to_bits(b, w)
     out = []
     c = 0
-    for x, y in zip(a, b):
+    opaque = None
+    for i, (x, y) in enumerate(zip(a, b)):
+        if opaque is not None:
+            out.append(('C', 'add', opaque[0], opaque[1], w, i))
+            continue
         if is_unknown(c):
             out.append(TOP)
             continue
         s = b_xor(b_xor(x, y), c)
         # carry = xy ^ c(x^y)
-        c = b_xor(b_and(x, y), b_and(c, b_xor(x, y)))
+        c2 = b_xor(b_and(x, y), b_and(c, b_xor(x, y)))
+        if (is_unknown(s) or is_unknown(c2)) and not has_unknown(tuple(a)) and not has_unknown(tuple(b)) and \
+                not _has_sum_atom(a) and not _has_sum_atom(b):
+            # the carry chain of two symbolic operands outgrew the normal form: from here on the sum bits are opaque
+            # (but evaluable) atoms "bit i of a + b", canonical in the ordered pair of operands
+            # (operands that already contain sum atoms are not nested: the terms would grow without bound)
+            ta, tb = tuple(a), tuple(b)
+            opaque = (ta, tb) if _vec_key(ta) <= _vec_key(tb) else (tb, ta)
+            out.append(('C', 'add', opaque[0], opaque[1], w, i) if is_unknown(s) else s)
+            continue
+        c = c2
         out.append(s)
     return norm(out)
+
+
+def _has_sum_atom(bits):
+    for t in bits:
+        if isinstance(t, tuple) and t:
+            if t[0] == 'C' and t[1] == 'add':
+                return True
+            if t[0] == 'X':
+                for m in t[1]:
+                    for v in m:
+                        if v[0] == 'C' and v[1] == 'add':
+                            return True
+    return False
+
+
+def _vec_key(bits):
+    """cheap, deterministic ordering key of an operand vector (commutativity of +)"""
+    out = []
+    for t in bits:
+        if t == 0 or t == 1:
+            out.append((0, t))
+        elif t[0] in ('I', 'A'):
+            out.append((1, repr(t)))
+        elif t[0] == 'X':
+            out.append((2, len(t[1]), sorted(len(m) for m in t[1])[:4]))
+        else:
+            out.append((3, t[1]))
+    return repr(out)
 
 
 def v_not(a, w):
@@ -378,6 +420,9 @@ def eval_atom(a, env):
             if eval_term(b, env):
                 return 1
         return 0
+    if kind == 'add':
+        # ('C','add', lhs bits, rhs bits, w, i): bit i of lhs + rhs
+        return ((eval_vec(a[2], a[4], env) + eval_vec(a[3], a[4], env)) >> a[5]) & 1
     if kind == 'cmp':
         # ('C','cmp', pred, lhs, rhs, w)
         pred, l, r, w = a[2], a[3], a[4], a[5]
@@ -517,6 +562,8 @@ def fmt_term(t):
         if t[1] == 'any':
             bs = sorted(fmt_term(b) for b in t[2])
             return 'any(%s)' % ','.join(bs if len(bs) < 6 else bs[:2] + ['..'] + bs[-2:])
+        if t[1] == 'add':
+            return 'sum.%d(%s + %s)' % (t[5], fmt_vec(t[2], t[4]), fmt_vec(t[3], t[4]))
         return 'cmp(%s,%s,%s)' % (t[2], fmt_vec(t[3], t[5]), fmt_vec(t[4], t[5]))
     if t[0] == 'X':
         ms = []
@@ -614,6 +661,12 @@ class PathCond(object):
         if t[0] == 'C':
             if t[1] == 'any':
                 t2 = make_any([self.apply(b) for b in t[2]])
+            elif t[1] == 'add':
+                l = norm(tuple(self.apply(b) for b in t[2]))
+                r = norm(tuple(self.apply(b) for b in t[3]))
+                if l == norm(t[2]) and r == norm(t[3]):
+                    return t
+                t2 = to_bits(v_add(l, r, t[4]), t[4])[t[5]]
             elif t[1] == 'cmp':
                 l = tuple(self.apply(b) for b in t[3]) if isinstance(t[3], tuple) else t[3]
                 r = tuple(self.apply(b) for b in t[4]) if isinstance(t[4], tuple) else t[4]
